@@ -466,8 +466,12 @@ class Check:
             lines.append("VIOLATION property=%s replay=%s no-failing-input-found" % (self.id, path))
             rc = 1
         else:
+            seen = {}
             for fid, what in self.known_hits:
-                lines.append("KNOWN-FINDING: property=%s %s %s" % (self.id, fid, what))
+                seen.setdefault(fid, []).append(what)
+            for fid, whats in seen.items():   # one line per listed finding
+                lines.append("KNOWN-FINDING: property=%s %s %s%s" % (
+                    self.id, fid, whats[0], " (and %d more inputs of this finding)" % (len(whats) - 1) if len(whats) > 1 else ""))
         self.write_evidence(wall, rc)
         shutil.rmtree(self.scratch, ignore_errors=True)
         for l in lines:
@@ -492,7 +496,7 @@ class Check:
             trusted_base=trusted_base(self.id),
             axioms_reported=b["axioms"],
             input_distribution=self.distribution,
-            known_findings_reproduced=[f for f, _ in self.known_hits],
+            known_findings_reproduced=sorted({f for f, _ in self.known_hits}),
             broken=self.broken,
         ))
         if not cov["discharged"]:
